@@ -300,6 +300,7 @@ type c10Doc struct {
 	what     string
 	spec     []byte
 	features []string
+	disable  []string // features switched off in the default set (FeatureOptions.Disable)
 	convErr  int
 }
 
@@ -333,6 +334,15 @@ func c10Generate(d *c10Doc) (res c10Result) {
 			}
 		}
 		opts.Generator.Features = &gen.FeatureOptions{DisableAll: true, Enable: fs}
+	}
+	if d.disable != nil {
+		fs := gen.FeatureSet{}
+		for _, f := range d.disable {
+			if err := fs.Enable(f); err != nil { // the Disable *set* names the features to switch off
+				panic(err)
+			}
+		}
+		opts.Generator.Features = &gen.FeatureOptions{Disable: fs}
 	}
 	g, err := gen.NewGenerator(spec, opts)
 	if err != nil {
@@ -448,6 +458,10 @@ func c10DocsT(thorough bool, rng *lp.Rand) []*c10Doc {
 			docs = append(docs, &c10Doc{label: "past-failures", what: fmt.Sprint(o["what"]), spec: []byte(d), features: feats})
 		}
 	}
+	// last: documents generated with features switched off in the default set — every later pass generates the
+	// default-feature documents above after these (process-wide state must not leak from one run to the next)
+	docs = append(docs, &c10Doc{label: "disable-features", what: "map-heavy document 0 without otel and unimplemented", spec: c10MapHeavy(rng.Fork(1000)), disable: []string{"ogen/otel", "ogen/unimplemented"}})
+	docs = append(docs, &c10Doc{label: "disable-features", what: "map-heavy document 1 without clients", spec: c10MapHeavy(rng.Fork(1001)), disable: []string{"paths/client", "webhooks/client"}})
 	return docs
 }
 
@@ -605,6 +619,16 @@ func c10MapHeavy(rng *lp.Rand) []byte {
 			}
 		}
 		o := map[string]any{"operationId": id, "responses": resps, "tags": shuf()[:1]}
+		// operation groups whose names differ in letter case only, next to ordinary ones
+		if rng.Chance(60) {
+			o["x-ogen-operation-group"] = lp.Pick(rng, []string{"Users", "USERS", "Admin", "ADMIN", "Misc"})
+		}
+		// one component response used as default / pattern here and under several fixed codes there
+		if rng.Chance(50) {
+			for _, code := range lp.Pick(rng, [][]string{{"default"}, {"4XX"}, {"400", "404", "409"}, {"401", "403"}, {"default", "500", "503"}}) {
+				resps[code] = map[string]any{"$ref": "#/components/responses/SharedErr"}
+			}
+		}
 		if rng.Chance(50) {
 			// descriptions of 1 to 16 lines on deprecated operations (the doc comment gets a deprecation notice)
 			var lines []string
@@ -661,7 +685,8 @@ func c10MapHeavy(rng *lp.Rand) []byte {
 		"servers":    []any{map[string]any{"url": "https://{region}.example.com/{base}", "variables": map[string]any{"region": map[string]any{"default": "eu", "enum": []string{"eu", "us"}}, "base": map[string]any{"default": "v1"}}}, map[string]any{"url": "https://b.example.com", "x-ogen-server-name": "Backup"}},
 		"paths":      paths,
 		"webhooks":   webhooks,
-		"components": map[string]any{"schemas": schemas, "securitySchemes": secSchemes},
+		"components": map[string]any{"schemas": schemas, "securitySchemes": secSchemes, "responses": map[string]any{
+			"SharedErr": map[string]any{"description": "shared error", "content": map[string]any{"application/json": map[string]any{"schema": map[string]any{"type": "object", "required": []string{"code"}, "properties": map[string]any{"code": map[string]any{"type": "integer"}, "msg": map[string]any{"type": "string"}}}}}}}},
 	}
 	b, _ := json.Marshal(doc)
 	return b
